@@ -13,89 +13,10 @@
 (***************************************************************************)
 EXTENDS MCUniverse, Json, SequencesExt
 
-SeeMax == 1024
-
-IInit == [ known |-> FALSE, real |-> << >>, app |-> << >>, seq |-> 0, genT |-> 0, genQ |-> 0,
-           see |-> << >>, icon |-> FALSE ]
-
-Matches(s, a) == ~s.known \/ s.real = a
-SetActive(s, real, app) == IF s.known THEN s ELSE [s EXCEPT !.known = TRUE, !.real = real, !.app = app]
-
-(* ---- answerHello *)
-IHello(s0, r) ==
-  LET s1 == [SetActive(s0, r.rs, r.es) EXCEPT !.seq = r.seq]
-      g  == IF r.tos = 1 THEN s1.genQ ELSE s1.genT
-      f  == [Fr(OpHello, r.tos, Own, BCAST, Own, BCAST, 0, 60) EXCEPT !.gen = g, !.cur = r.rs, !.app = r.es]
-  IN [st |-> s1, out |-> << T(f) >>]
-
-(* ---- parseEmit / sendProbeMsg *)
-RECURSIVE EmitOut(_, _, _, _)
-EmitOut(s, r, i, n) ==
-  IF i > n THEN << >>
-  ELSE LET d == r.descs[i]
-           one == IF d.kind \in {0, 1}
-                  THEN << S(d.pause), T(Fr(IF d.kind = 1 THEN OpProbe ELSE OpTrain, 0, d.src, d.dst, Own, d.dst, 0, 32)) >>
-                       \o (IF i = n THEN << T(Fr(OpAck, 0, Own, s.app, Own, s.real, s.seq, 32)) >> ELSE << >>)
-                  ELSE << >>
-       IN one \o EmitOut(s, r, i + 1, n)
-
-IEmit(s0, r) ==
-  LET s1 == SetActive([s0 EXCEPT !.seq = r.seq], r.rs, r.es)
-      n  == Min(r.declared, EmitCap(Mtu))
-  IN [st |-> s1, out |-> EmitOut(s1, r, 1, n)]
-
-(* ---- parseProbe *)
-IProbe(s, r) ==
-  LET new == [rs |-> r.rs, es |-> r.es, ed |-> r.ed, ty |-> IF r.op = OpProbe THEN 1 ELSE 0]
-      dup == \E i \in 1..Len(s.see) : s.see[i].es = new.es /\ s.see[i].rs = new.rs
-  IN [st |-> IF r.rd # Own \/ dup \/ Len(s.see) >= SeeMax THEN s ELSE [s EXCEPT !.see = << new >> \o s.see], out |-> << >>]
-
-(* ---- parseQuery *)
-IQuery(s0, r) ==
-  LET s1 == [s0 EXCEPT !.seq = r.seq, !.known = TRUE, !.real = r.rs, !.app = r.es]
-      dest == IF r.rs = r.es THEN r.rs ELSE BCAST
-      n == Min(Len(s1.see), QueryCap(Mtu))
-      f == [Fr(OpQueryResp, 0, Own, dest, Own, dest, r.seq, 34 + 20 * n) EXCEPT
-              !.more = Len(s1.see) > n, !.descs = [i \in 1..n |-> s1.see[i]]]
-  IN [st |-> [s1 EXCEPT !.see = SubSeq(s1.see, n + 1, Len(s1.see))], out |-> << T(f) >>]
-
-(* ---- parseQueryLargeTlv / sendLargeTlvResponse *)
-ILarge(s0, r) ==
-  IF r.seq = 0 THEN [st |-> s0, out |-> << >>]
-  ELSE
-  LET s1 == SetActive([s0 EXCEPT !.seq = r.seq], r.rs, r.es)
-      s2 == IF r.ltype = 14 THEN [s1 EXCEPT !.icon = TRUE] ELSE s1
-      d == DataFor(Cfg, r.ltype)
-      cap == LargeCap(Mtu)
-      len == IF d.size > r.off + cap THEN cap ELSE IF d.size > r.off THEN d.size - r.off ELSE 0
-      dest == IF r.rs = r.es THEN r.rs ELSE BCAST
-      f == [Fr(OpQueryLargeResp, 0, Own, dest, Own, dest, r.seq, 34 + len) EXCEPT
-              !.more = d.size > r.off + cap, !.pay = [k \in 1..len |-> LData(d, r.off + k - 1)]]
-  IN [st |-> s2, out |-> << T(f) >>]
-
-(* ---- parseFrame *)
-IStep(s0, r) ==
-  LET pre == r.op = OpDiscover /\ r.tos \in {0, 1}
-      reject == pre /\ ~Matches(s0, r.rs)
-      s1 == IF pre /\ ~reject
-            THEN LET a == SetActive(s0, r.rs, r.es) IN IF r.tos = 1 THEN [a EXCEPT !.genQ = r.gen] ELSE [a EXCEPT !.genT = r.gen]
-            ELSE s0
-      silent == [st |-> s1, out |-> << >>]
-  IN IF reject THEN [st |-> s0, out |-> << >>]
-     ELSE IF r.tos = 0 THEN
-       CASE r.op = OpDiscover -> LET h == IHello(s1, r) IN [st |-> h.st, out |-> << S(10) >> \o h.out]
-         [] r.op = OpEmit -> IEmit(s1, r)
-         [] r.op \in {OpProbe, OpTrain} -> IProbe(s1, r)
-         [] r.op = OpQuery -> IQuery(s1, r)
-         [] r.op = OpQueryLarge -> ILarge(s1, r)
-         [] r.op = OpReset -> [st |-> IInit, out |-> << >>]
-         [] OTHER -> silent
-     ELSE IF r.tos = 1 THEN
-       CASE r.op = OpDiscover -> IHello(s1, r)
-         [] r.op = OpQueryLarge -> ILarge(s1, r)
-         [] r.op = OpReset -> [st |-> [s1 EXCEPT !.known = FALSE, !.genQ = 0], out |-> << >>]
-         [] OTHER -> silent
-     ELSE silent
+(* the mechanism itself lives in Mechanism.tla (MCUniverse extends it); here it is instantiated on the *)
+(* configuration of the small universe                                                                 *)
+IInit == MInit
+IStep(s, r) == MStep(Cfg, s, r)
 
 (* ------------------------------------------------------------ refinement *)
 VARIABLES ist, ast, req, out
